@@ -35,6 +35,9 @@ pub enum MacOff {
     ForeignMcast([u8; 16]),
     /// RFC 1112 mapping taken from the wrong bits (24 instead of 23)
     WrongBits,
+    /// group prefix of one address family combined with the low bits of a handled address of the
+    /// other family (33:33:ff + IPv4 low 24 bits; 01:00:5e + IPv6 low 23 bits)
+    CrossFamily(u16),
     AllRouters,
     NearBroadcast,
     Random([u8; 6]),
@@ -52,6 +55,7 @@ fn mac_off() -> impl Strategy<Value = MacOff> {
         3 => (0u8..48).prop_map(MacOff::FlipBit),
         2 => any::<[u8; 16]>().prop_map(MacOff::ForeignMcast),
         1 => Just(MacOff::WrongBits),
+        2 => any::<u16>().prop_map(MacOff::CrossFamily),
         1 => Just(MacOff::AllRouters),
         1 => Just(MacOff::NearBroadcast),
         2 => any::<[u8; 6]>().prop_map(MacOff::Random),
@@ -131,6 +135,23 @@ pub fn apply_change(cfg: &Cfg, g: &[u8], ch: &Change) -> Option<(Cfg, Vec<u8>, &
                         mac = [0x01, 0x00, 0x5e, 0x80, 0x00, 0x01];
                     }
                     kind = "mac:mapping-from-wrong-bits";
+                }
+                MacOff::CrossFamily(i) => {
+                    let l = cfg.self_ips.clone().unwrap_or_default();
+                    if l.is_empty() {
+                        return None;
+                    }
+                    match &l[pick(*i, l.len())] {
+                        IpAddr::V4(a) => {
+                            let o = a.octets();
+                            mac = [0x33, 0x33, 0xff, o[1], o[2], o[3]];
+                        }
+                        IpAddr::V6(a) => {
+                            let o = a.octets();
+                            mac = [0x01, 0x00, 0x5e, o[13] & 0x7f, o[14], o[15]];
+                        }
+                    }
+                    kind = "mac:group-prefix-of-the-other-address-family";
                 }
                 MacOff::AllRouters => {
                     mac = [0x33, 0x33, 0, 0, 0, 2];
@@ -355,7 +376,16 @@ fn member_check(m: &Member, st: &mut Stats) -> Check {
     let reqf = match &m.req {
         Req::Ns { opts, .. } => {
             let t = match addr { IpAddr::V6(a) => a.octets(), _ => return Ok(()) };
-            if m.ip_dst_too { net.sip = addr; }
+            if m.ip_dst_too {
+                net.sip = addr;
+            } else {
+                // the IP packet itself goes to some other unicast address (ICMPv6 NS is exempt from
+                // the destination filter): the advertisement must still be sourced from inside S
+                let o = other_ip(&addr, 13);
+                if !o.is_multicast() {
+                    net.sip = o;
+                }
+            }
             ns_frame(&net, &t, opts)
         }
         _ => {
